@@ -111,7 +111,8 @@ def family_a(tier, which):
     out = []
     for a in canonical_adapters("ACGT", mmax):
         for t in ALL_TYPES:
-            out.append(dict(fam="A", type=t, adapter=a, ralpha="ACGT", nmax=nmax, rates=rate_menu(len(a), quick),
+            # thorough: adapters of length 5 against all reads up to 7, shorter adapters against all reads up to 8
+            out.append(dict(fam="A", type=t, adapter=a, ralpha="ACGT", nmax=(7 if len(a) == 5 else nmax), rates=rate_menu(len(a), quick),
                             overlaps=sorted({1, 2, 3, len(a)} & set(range(1, len(a) + 1)) | {min(3, len(a))}),
                             wc=[(True, False)]))
     # symmetry validation scope: every adapter (not only canonical ones) of length <= 3 (quick: 2) against reads <= 6
@@ -127,9 +128,7 @@ def family_a(tier, which):
 
 def family_b(tier, which):
     quick = tier != "thorough"
-    mmax, nmax = (3, 5) if quick else (4, 6)
-    if which == "C02" and not quick:
-        mmax, nmax = 4, 5
+    mmax, nmax = (3, 5) if quick else (4, 5)
     out = []
     wcs = [(True, False), (False, False), (True, True), (False, True)]  # (adapter_wildcards, read_wildcards)
     for a in strings("ACNR", mmax, 1):
@@ -196,8 +195,8 @@ def family_c(tier, which):
         for t in ALL_TYPES[:8]:
             out.append(dict(fam="C", type=t, adapter=a, cidx=idx, depth=1 if (quick or which == "C02") else 2,
                             small=bool(quick and which == "C02"),
-                            rates=([0.1, 0.2] if which == "C02" else [0.0, 0.1, 0.2]) if quick else [0.0, 0.08, 0.1, 0.15, 0.2, 0.3],
-                            overlaps=[3, 8] if quick else [1, 3, 8, len(a)], wc=[(True, False)] if quick else [(True, False), (True, True)]))
+                            rates=([0.1, 0.2] if which == "C02" else [0.0, 0.1, 0.2]) if quick else [0.0, 0.1, 0.2, 0.3],
+                            overlaps=[3, 8] if quick else [1, 5], wc=[(True, False)] if quick else [(True, False), (True, True)]))
     # one long adapter (> 64 k-mer bits -> multi-mask or fall-back finder)
     long_a = "ACGGTCAATGCCTAGGATCCGTTAACGGCTAGCATTGACCGTAGGCTTAACCGGATATCGCGTAATGCCA"
     for t in ("back", "front", "anywhere", "prefix", "suffix"):
